@@ -142,3 +142,54 @@ Lemma name_first_differs :
   option_map (fun f => lookup_cid f [65]) (efile_meaning pd collide) = Some 7 /\
   option_map (fun f => lookup_cid f [65]) (extract_cid_name_first pd (embed_cid collide)) = Some 1.
 Proof. vm_compute. repeat split; reflexivity. Qed.
+
+(* ---- shape of what the compression produces ---------------------------------- *)
+
+(* a range First..Last of a map es: one prefix (all bytes but the last), hence equal lengths; first <= last in
+   the last byte; every code of the range is a key of es *)
+Definition range_shape {V} (es : list (bytes * V)) (f l : bytes) (a b : N) (k : bytes) : Prop :=
+  f = k ++ [a] /\ l = k ++ [b] /\ length f = length l /\ a <= b /\ b < 256 /\
+  (forall x, a <= x -> x <= b -> exists w, In (k ++ [x], w) es).
+
+Definition crange_out_wf (es : list (bytes * N)) (r : crange) : Prop :=
+  let '(f, l, _) := r in exists k a b, range_shape es f l a b k.
+
+Definition trange_out_wf (es : list (bytes * text)) (r : trange) : Prop :=
+  let '(f, l, vals) := r in
+  exists k a b, range_shape es f l a b k /\ (length vals = 1%nat \/ N.of_nat (length vals) = b - a + 1).
+
+Lemma setmapping_ranges_wf_lemma csr f es :
+  NoDup (map fst es) -> wf_entries N es -> cid_ok es ->
+  Forall (crange_out_wf es) (c_ranges (set_mapping_bytes csr f es)) /\
+  Forall (fun s => In s es) (c_singles (set_mapping_bytes csr f es)).
+Proof.
+  intros Hnd Hwf Hok. destruct (kept_cid_ok f es Hnd Hwf Hok) as (K1 & K2 & K3).
+  assert (Hsub : forall e, In e (kept_cid f es) -> In e es).
+  { unfold kept_cid. destruct (c_parent f); [|auto]. intros e He. apply filter_In in He. tauto. }
+  unfold set_mapping_bytes. fold (kept_cid f es). cbn [c_ranges c_singles]. split.
+  - apply Forall_forall. intros r Hr. apply in_map_iff in Hr as ([[f0 l0] vals] & <- & Hr).
+    destruct (compress_range_codes N cid_link cid_vals (kept_cid f es) f0 l0 vals K2 Hr)
+      as (k & a & b & vs & -> & -> & Hab & Hb & _ & _ & Hcodes).
+    unfold to_crange, crange_out_wf. exists k, a, b. unfold range_shape. repeat split; auto.
+    + rewrite !app_length. reflexivity.
+    + intros x H1 H2. destruct (Hcodes x H1 H2) as (w & Hw). exists w. auto.
+  - apply Forall_forall. intros s Hs.
+    destruct (compress_hits N cid_add cid_link cid_vals cid_mk (kept_cid f es) K2) as [[S1 _] _]. auto.
+Qed.
+
+Lemma tounicode_ranges_wf_lemma csr es :
+  wf_entries text es ->
+  Forall (trange_out_wf es) (t_ranges (new_tounicode_bytes csr es)) /\
+  Forall (fun s => In s es) (t_singles (new_tounicode_bytes csr es)).
+Proof.
+  intros Hwf. unfold new_tounicode_bytes. cbn [t_ranges t_singles]. split.
+  - apply Forall_forall. intros [[f0 l0] vals] Hr.
+    destruct (compress_range_codes text tu_link tu_vals es f0 l0 vals Hwf Hr)
+      as (k & a & b & vs & -> & -> & Hab & Hb & -> & Hn & Hcodes).
+    unfold trange_out_wf. exists k, a, b. split.
+    + unfold range_shape. repeat split; auto. rewrite !app_length. reflexivity.
+    + unfold tu_vals. destruct (needs_list vs); [right; exact Hn|].
+      left. destruct vs as [|v0 vs']; [cbn [length] in Hn; lia|reflexivity].
+  - apply Forall_forall. intros s Hs.
+    destruct (compress_hits text next_string tu_link tu_vals tu_mk es Hwf) as [[S1 _] _]. auto.
+Qed.
